@@ -13,6 +13,9 @@ from ..facts import callee_name
 
 BUILDER = "cozy_chess::board::builder::BoardBuilder"
 ROLES = ["board", "derived", "castling", "ep", "half", "full"]
+# "clocks in range" (C06): the half-move clock is at most 100, the full-move number at least 1.  A constructor may test
+# this through the validator functions or directly on the value it stores; both count as the validation of that role.
+CLOCK_RANGE = {"half": (0, 100, "u8"), "full": (1, 65535, "u16")}
 
 
 class Gate:
@@ -62,9 +65,9 @@ class Gate:
                     r = role
                     break
             if r is None:
-                # reads the stored checkers/pinned through their getters and compares: derived
-                called = {callee_name(t) for bb, t in b.calls()}
-                if (B + "::checkers") in called and (B + "::pinned") in called:
+                # reads the stored checkers and pinned sets (through their getters or directly) and compares: derived
+                bfields = {fl for (adt, fl) in acc if adt == B}
+                if self.fld["checkers"] in bfields and self.fld["pinned"] in bfields:
                     r = "derived"
                 else:
                     r = "board"
@@ -321,6 +324,13 @@ class Gate:
                     role = "derived"
                 if role and not (e.args[0][0] == "int" or e.args[0][0] == "bbconst"):
                     out.append((e.idx, "W", {role}, "assign " + fl))
+                    if role in CLOCK_RANGE:
+                        # the stored value is known, from the decisions of this path, to lie in the role's range
+                        from ..ranges import Ranger
+                        lo_, hi_, ty_ = CLOCK_RANGE[role]
+                        bd = Ranger(self.f, {e.args[0]: ty_}).bounds(e.args[0], p.conds)
+                        if bd is not None and lo_ <= bd[0] and bd[1] <= hi_:
+                            out.append((e.idx + 0.25, "V", {role}, "stored value within %d..%d" % (max(lo_, bd[0]), min(hi_, bd[1]))))
                 elif role and e.args[0][0] in ("int", "bbconst") and False:
                     pass
                 continue
